@@ -59,8 +59,12 @@ class Ctx:
         self.skipped = {}
         self.exhaustive = False
 
+    def log(self, msg):
+        if os.environ.get("VERIF_VERBOSE"):
+            print("[%6.1fs] %s" % (time.time() - self.t0, msg), file=sys.stderr, flush=True)
+
     # ---- TLC on the model ------------------------------------------------
-    def model_check(self, module, cfg, workers=16, timeout=1800, args=(), env=None,
+    def model_check(self, module, cfg, workers=16, timeout=900, args=(), env=None,
                     heap="6g", must_pass=True):
         r = T.run_tlc(module, cfg, self.work, workers=workers, timeout=timeout,
                       args=args, env=env, heap=heap)
@@ -69,6 +73,8 @@ class Ctx:
                             "wall_s": round(r.wall, 2), "ok": r.ok})
         self.states += r.distinct
         self.transitions += r.generated
+        self.log("TLC %s %s: %d distinct / %d generated, depth %d, %.1fs ok=%s"
+                 % (module, os.path.basename(str(cfg)), r.distinct, r.generated, r.depth, r.wall, r.ok))
         if must_pass:
             T.require_ok(r, "%s/%s" % (module, cfg))
         return r
